@@ -13,6 +13,39 @@ CHECKS = {
             "DESIGN.md §4 C19"),
 }
 
+CHECKS.update({
+    "C01": ("model_checking", "E2+E1",
+            "explicit-state BFS over subscribe/unsubscribe histories on the real Trie (state = canonical trie dump) + preemption-bounded exhaustive schedule exploration with a brute-force linearizability oracle",
+            "Every history of subscribe/unsubscribe to depth 3 (quick) / 4 (thorough) over 12-16 filters x 3 subscribers in both matcher modes is replayed on a fresh real Trie; in every reached state 7 channels are looked up (with and without an exclusion filter) and compared with a string-level matcher incl. share groups; Count() and 'index empty again' are checked. Four 3-thread scenarios are explored exhaustively up to 2/3 preemptions; every execution's call/return history must be linearizable w.r.t. the reference.",
+            "murmur32 collisions outside the alphabet; sequentially consistent statement-level interleavings; share picks with >1 member only in the sequential part (Go map iteration is not controllable).",
+            "DESIGN.md §4 C01"),
+    "C02": ("model_checking", "E2",
+            "explicit-state BFS over client request histories against a real broker.Service (in-memory connections, independent MQTT client codec), states deduplicated by trie dump + per-connection counters + reference model",
+            "Every sequence of subscribe/unsubscribe/link/failing requests by two clients to depth 3 (quick) / 4 (thorough) over xor-colliding, repeated and wildcard filters is replayed on a real broker; in every reached state every client publishes to 9 channels with and without me=0 and through links, and each client's inbox is compared with the reference (exactly-once, topic, payload); failing requests must answer emitter/error/ and change nothing.",
+            "clients act one acknowledged request at a time (histories, not schedules); single broker; level names outside the alphabet are not explored.",
+            "DESIGN.md §4 C02"),
+    "C07": ("model_checking", "E2",
+            "explicit-state BFS over publish/last-will histories on a real broker with the real in-memory history store; 32 subscribe probes per state",
+            "Every sequence of publishes (plain/retain/ttl/retain+ttl x store/no-store key x 2 nested channels) and last wills to depth 3 (quick) / 5 (thorough) is replayed on a real broker; in every state the store content (channel, payload, ttl, contract) is compared with the reference and 32 subscriptions (filter x last x load permission x window) check that exactly the last N stored matching messages arrive before the SUBACK and live messages only after it.",
+            "histories run within seconds, ttl values far from expiry; in-memory badger provider (disk provider covered by C06/C15).",
+            "DESIGN.md §4 C07"),
+    "C08": ("fault_enumeration", "E4",
+            "exhaustive enumeration of cut points (every packet boundary x 6 endings, every byte offset inside the last packet) of every generated client session against a real broker with a watching client",
+            "Every session of <=2 (quick) / <=3 (thorough) requests over 10 request kinds (xor-colliding filters, presence-change and link subscriptions) x 3 last-will variants is cut after its last packet with each of 6 endings (DISCONNECT, abrupt close, EOF-with-data, malformed, bad type, oversized) and at byte offsets inside its last packet; after the broker closes the socket the subscription index, connection counter, per-connection counters, the last-will deliveries and the presence notifications seen by a second client are compared with the reference.",
+            "in-memory transport attached through the real accept path; 'internal failure' = decoder error/panic only.",
+            "DESIGN.md §4 C08"),
+    "C16": ("exploration", "E3",
+            "bounded-exhaustive enumeration of packet values of all 14 MQTT packet types, differential against eclipse/paho packets and the MQTT 3.1.1 length encoding",
+            "Every packet value of the stated product (flags, QoS incl. will QoS, ids, field lengths at 0/1/127/128/16383/16384 and at the 64 KiB boundaries, 0-3 tuples) is encoded by emitter and decoded by paho, encoded by paho and decoded by emitter, and round-tripped through emitter; remaining-length bytes are compared with the spec; panics are violations.",
+            "paho is the reference only for values it round-trips itself; byte contents are fixed patterns.",
+            "DESIGN.md §4 C16"),
+    "C18": ("model_checking", "E2",
+            "explicit-state BFS over subscribe/unsubscribe/disconnect/presence-request histories of three clients on a real broker, FIFO barrier on the real presence queue",
+            "Every history to depth 3 (quick) / 5 (thorough) over 14 operations is replayed on a real broker; after every operation the watcher's inbox must hold exactly the expected subscribe/unsubscribe notifications (connection id and username checked), and in every state presence status requests for three channels must list exactly the connections the C02 reference says would receive a publish.",
+            "single broker (cluster survey returns nothing); notifications awaited through a no-op pushed through the real queue.",
+            "DESIGN.md §4 C18"),
+})
+
 NOT_YET = {}
 
 
